@@ -104,6 +104,97 @@ class T2Tag(Nothing):
         raise dev.ns.TimeoutError("mute")
 
 
+class T1Tag(Nothing):
+    """Type 1 tag (static memory): answers RID and `budget` READ commands, then leaves the field."""
+    name = "tag"
+    UID = bytes.fromhex("B2565400")
+
+    def __init__(self, budget=None):
+        self.budget, self.gone = budget, False
+        self.mem = bytearray(120)
+        self.mem[0:4] = self.UID
+        self.mem[8:12] = bytes.fromhex("E1100E00")
+
+    def sense(self, dev, kind, target):
+        if kind != "tta" or self.gone:
+            return None
+        return dict(brty="106A", sens_res=b"\x00\x0C", rid_res=b"\x11\x48" + self.UID)
+
+    def command(self, dev, data, timeout):
+        if self.gone:
+            raise dev.ns.TimeoutError("tag gone")
+        data = bytes(data)
+        if data[0] == 0x78:
+            return bytearray(b"\x11\x48" + self.UID)
+        if data[0] == 0x01 and data[3:7] == self.UID:
+            if self.budget is not None:
+                if self.budget <= 0:
+                    self.gone = True
+                    raise dev.ns.TimeoutError("tag left")
+                self.budget -= 1
+            return bytearray([data[1], self.mem[data[1] % 120]])
+        raise dev.ns.TimeoutError("not supported")
+
+
+class T3Tag(Nothing):
+    """Type 3 tag: answers `budget` polling commands after discovery, then leaves the field."""
+    name = "tag"
+    IDM = bytes.fromhex("01010701260CCA02")
+    PMM = bytes.fromhex("FFFFFFFFFFFFFFFF")
+    SYS = bytes.fromhex("12FC")
+
+    def __init__(self, budget=None):
+        self.budget, self.gone = budget, False
+
+    def sense(self, dev, kind, target):
+        if kind != "ttf" or self.gone:
+            return None
+        return dict(brty=target.brty, sensf_res=b"\x01" + self.IDM + self.PMM + self.SYS)
+
+    def command(self, dev, data, timeout):
+        if self.gone:
+            raise dev.ns.TimeoutError("tag gone")
+        data = bytes(data)
+        if len(data) == 6 and data[1] == 0x00:
+            if self.budget is not None:
+                if self.budget <= 0:
+                    self.gone = True
+                    raise dev.ns.TimeoutError("tag left")
+                self.budget -= 1
+            rsp = b"\x01" + self.IDM + self.PMM + (self.SYS if data[4] == 1 else b"")
+            return bytearray(bytes([len(rsp) + 1]) + rsp)
+        raise dev.ns.TimeoutError("not supported")
+
+
+class T4Tag(Nothing):
+    """Type 4A tag: answers RATS and `budget` presence checks (R(NAK) -> R(ACK)), then leaves the field."""
+    name = "tag"
+    UID = bytes.fromhex("08A1B2C3")
+
+    def __init__(self, budget=None):
+        self.budget, self.gone = budget, False
+
+    def sense(self, dev, kind, target):
+        if kind != "tta" or self.gone:
+            return None
+        return dict(brty="106A", sens_res=b"\x04\x00", sel_res=b"\x20", sdd_res=self.UID)
+
+    def command(self, dev, data, timeout):
+        if self.gone:
+            raise dev.ns.TimeoutError("tag gone")
+        data = bytes(data)
+        if data[0] == 0xE0:
+            return bytearray(bytes.fromhex("0578804000"))
+        if data[0] & 0xF6 == 0xB2:
+            if self.budget is not None:
+                if self.budget <= 0:
+                    self.gone = True
+                    raise dev.ns.TimeoutError("tag left")
+                self.budget -= 1
+            return bytearray([0xA2 | (data[0] & 1)])
+        raise dev.ns.TimeoutError("not supported")
+
+
 class Peer(Nothing):
     """An NFC-DEP / LLCP peer.  role = the role the PEER plays ("target": we find it as initiator;
     "initiator": it activates us while we listen).  It answers `exchanges` LLC PDU exchanges with SYMM
